@@ -613,3 +613,10 @@ def coll_ordereddict(m, args, kw, node):
     from .builtins import BUILTINS
 
     return BUILTINS["dict"].fn(m, args, kw, node)
+
+
+@ext("collections.deque", "double-ended queue used as a stack (append / pop)")
+def coll_deque(m, args, kw, node):
+    if args:
+        return SList(m.iter_concrete(args[0], node))
+    return SList()
